@@ -229,8 +229,11 @@ theorem refit_total (q : Q K) (h : Inv q) (hr : RootParentInvalid q)
   obtain ⟨d, hd0, hd⟩ := h.depth
   have hk : WBound q d q.nodes.size q.dirtyNodes := fun n hn nd hnd =>
     ⟨hl n hn nd hnd, depth_lt_size q h d hd0 hd n nd hnd (hl n hn nd hnd)⟩
-  exact refitLoop_terminates_aux q h hr d hd cur margin q.nodes.size (q.nodes.size + 2) true q 0 (by omega)
+  obtain ⟨r0, h0⟩ := refitLoop_terminates_aux q h hr d hd cur margin q.nodes.size (q.nodes.size + 2) true q 0 (by omega)
     (TopoEq.refl q) hk
+  refine ⟨(syncRootAabb r0.1, r0.2), ?_⟩
+  unfold refit refitPinned
+  rw [h0]; rfl
 
 attribute [local irreducible] splitNodes
 
